@@ -622,9 +622,14 @@ def broadcast_addr(addr):
             ).broadcast_address
         )
     if addr.family == socket.AF_INET6:
+        netmask = addr.netmask
+        if ":" in netmask:
+            # address form -> prefix length (IPv6Network() takes nothing else)
+            bits = int(ipaddress.IPv6Address(netmask))
+            netmask = bin(bits).count("1")
         return str(
             ipaddress.IPv6Network(
-                f"{addr.address}/{addr.netmask}", strict=False
+                f"{addr.address}/{netmask}", strict=False
             ).broadcast_address
         )
 
